@@ -23,11 +23,18 @@ def plan(tier, seed):
     n, k = (320, 8) if tier == 'quick' else (8000, 16)
     for i, (a, b) in enumerate(split_range(n, k)):
         specs.append({'gen': 'async-model', 'n': b - a, 'shard': 300 + i, 'seed': seed, 'tier': tier})
+    n, k = (120, 4) if tier == 'quick' else (3000, 12)
+    for i, (a, b) in enumerate(split_range(n, k)):
+        # real transports, reads of 1..2000 characters: numbered lines found by expect_exact / expect, none skipped
+        specs.append({'gen': 'real-ledger', 'n': b - a, 'shard': 400 + i, 'seed': seed, 'tier': tier})
     return specs
 
 
 def run_shard(spec, acc):
     spec = dict(spec, prop=ID)
+    if spec.get('gen') == 'real-ledger' or (isinstance(spec.get('replay'), dict) and spec['replay'].get('real')):
+        from . import _real_ledger as RL
+        return RL.run(spec, acc)
     if spec.get('gen') == 'async-model' or (isinstance(spec.get('replay'), dict) and 'calls' in spec['replay']
                                             and 'idle' in (spec['replay']['calls'] or [{}])[0]):
         return AM.run(spec, acc)
